@@ -319,3 +319,32 @@ pub static HC_RECV: Gauge = Gauge::new();
 pub static HC_SYNCED: Gauge = Gauge::new();
 /// `handle_changes`: changesets dropped because the queue was full
 pub static HC_DROPPED: Gauge = Gauge::new();
+
+static WRITER_REQ: AtomicU64 = AtomicU64::new(0);
+
+/// id for one `SplitPool::write_*` request
+pub fn next_writer_request() -> u64 {
+    WRITER_REQ.fetch_add(1, Ordering::SeqCst) + 1
+}
+
+/// Lives inside a `WriteConn`: maintains `LIVE_WRITERS` and logs `wq.permit` / `wq.released`.
+pub struct WriterGuard {
+    req: u64,
+    queue: &'static str,
+}
+
+impl WriterGuard {
+    pub fn new(req: u64, queue: &'static str) -> Self {
+        let live = LIVE_WRITERS.add(1);
+        event("wq.permit", || format!("{req} {queue} live={live}"));
+        Self { req, queue }
+    }
+}
+
+impl Drop for WriterGuard {
+    fn drop(&mut self) {
+        let (req, queue) = (self.req, self.queue);
+        let live = LIVE_WRITERS.add(-1);
+        event("wq.released", || format!("{req} {queue} live={live}"));
+    }
+}
